@@ -453,6 +453,29 @@ func runC17(c *Check) {
 		}
 		c.MinInstances("C17-R7", 1)
 	}
+	// ---- R8: the mode is what the configuration says. With lazy mode configured the normal loop
+	// is unreachable and vice versa: no further condition (interval ratios …) selects the loop.
+	c.Doc("C17-R8", "GA: the lazy loop runs exactly when lazy mode is configured: from the true edge of the LazyMode test the normal loop is unreachable, from its false edge the lazy loop is.")
+	{
+		g := BuildECFG(p, agg, ExpandOpts{MaxDepth: 0})
+		c.NoteGraph(g)
+		isMode := func(t *Term) bool { return t.Op == "field" && t.Name == "LazyMode" }
+		on := g.Select(EdgeWhere(func(t *Term, pol bool, n *Node) bool { t, pol = normFact(t, pol); return pol && isMode(t) }))
+		off := g.Select(EdgeWhere(func(t *Term, pol bool, n *Node) bool { t, pol = normFact(t, pol); return !pol && isMode(t) }))
+		callsTo := func(fn *ssa.Function) NodePred {
+			return func(n *Node) bool { cc := CallCommonOf(n); return cc != nil && cc.StaticCallee() == fn }
+		}
+		if len(on) == 0 || len(off) == 0 {
+			c.Unk("C17-R8", "AggregationLoop ⟂ mode-follows-configuration", fnName(agg), "", "anchor lost: no branch on the configured LazyMode in the aggregation loop")
+		} else if pth := g.PathAvoiding(on, callsTo(normal), nil); pth != nil {
+			c.Bad("C17-R8", "AggregationLoop ⟂ mode-follows-configuration", fnName(agg), p.InstrPos(on[0].In), "with lazy mode configured the normal loop can still be chosen (a further condition decides): blocks are then produced once per block interval instead of on demand and once per idle interval", g.DescribePath(pth))
+		} else if pth := g.PathAvoiding(off, callsTo(lazy), nil); pth != nil {
+			c.Bad("C17-R8", "AggregationLoop ⟂ mode-follows-configuration", fnName(agg), p.InstrPos(off[0].In), "without lazy mode configured the lazy loop can be chosen", g.DescribePath(pth))
+		} else {
+			c.OK("C17-R8", "AggregationLoop ⟂ mode-follows-configuration", fnName(agg), p.InstrPos(on[0].In), "the configured mode alone selects the loop", true)
+		}
+		c.MinInstances("C17-R8", 1)
+	}
 	c.MinInstances("C17-R2", 4)
 	c.MinInstances("C17-R3", 3)
 	c.MinInstances("C17-R4", 2)
